@@ -22,7 +22,11 @@ META = {
             "pest_meta reads (and, when the C05 development builds, proves in Coq that the Gallina optimizer maps one to the printed "
             "optimized rules); runs pest_meta::parser::parse against pest_vm on parse_and_optimize(grammar.pest) and against the extracted "
             "model on the shipped .pest files, generated grammars, mutated/truncated grammars and short fragments, comparing acceptance, "
-            "token forest and error; thorough also compiles a fresh #[derive(Parser)] of grammar.pest and adds it to the comparison.",
+            "token forest and error; the token stream the in-tree derive_parser returns for grammar.pest is compiled as source on every run and is the "
+            "third leg of every comparison (thorough also compiles a #[derive(Parser)] of grammar.pest as a fourth). When a structural stage or the proof "
+            "breaks without a failing text, the rules pinpointed (token-level function diff of the regenerated grammar.rs, DIFF lines of the closure "
+            "comparison) are searched: spellings of the rule derived from the grammar (every alternative, every repetition count from min-1 to max+1), "
+            "embedded in every calling rule up to the top rule, the grammar's own trivia at every position, all short strings over the rule's literals.",
     "note": "Trusted: Coq kernel; extraction; the syn reader (strict) and the two python printers of s-expressions as Gallina; VmCompile.v / "
             "Exec.v as models of the VM / ParserState (tied to the code by the differential runs here and by C01/C03). The theorem is about the "
             "closure table read from grammar.rs, not about rustc's compilation of it.",
@@ -30,6 +34,9 @@ META = {
     "coq_targets": ["props/C14.vo", "Extract/GenExtract.vo"],
     "bins": ["c14"],
 }
+
+
+STAGES = []   # what the targeted search of the last run_pipes call covered (STAGES lines of `c14 target`)
 
 
 def load(name):
@@ -83,8 +90,45 @@ if not os.path.exists(os.path.join(COQ, "gen", "MetaCheckedIn.v")):
         pass
 
 
+def fresh_dirs(name):
+    """(crate dir, target dir) of a scratch crate for this repository (for a copy of the repository: below the shadow harness directory)."""
+    if REPO == "/repo":
+        return os.path.join(BUILD, name), os.path.join(ROOT, "rust", "target-" + name)
+    tag = hashlib.sha1(REPO.encode()).hexdigest()[:8]
+    return "/tmp/pvharness-%s/%s" % (tag, name), "/tmp/pvtarget-%s-%s" % (tag, name)
+
+
+def build_fresh_generated(hbin):
+    """The third leg of the property: the token stream the IN-TREE pest_generator::derive_parser returns for meta/src/grammar.pest (the
+    bootstrap invocation; bootstrap/ itself links the crates.io generator), written out as source and compiled against the
+    repository's `pest`.  Returns (exe or None, stage that failed, log)."""
+    d, tdir = fresh_dirs("c14gen")
+    os.makedirs(os.path.join(d, "src"), exist_ok=True)
+    rc, src = sh("%s freshgen %s" % (hbin, REPO), timeout=300)
+    if rc != 0 or "fn main" not in src:
+        return None, "generate", src[-2000:]
+    write_if_changed(os.path.join(d, "src", "main.rs"), src)
+    write_if_changed(os.path.join(d, "Cargo.toml"),
+                     '[package]\nname = "c14gen"\nversion = "0.0.0"\nedition = "2021"\npublish = false\n\n[workspace]\n\n[dependencies]\n'
+                     'pest = { path = "%s/pest" }\n\n[profile.release]\nopt-level = 1\noverflow-checks = true\ndebug-assertions = true\npanic = "unwind"\n'
+                     'debug = false\ncodegen-units = 16\n' % REPO.rstrip("/"))
+    if not os.path.exists(os.path.join(d, "Cargo.lock")):
+        sh("cp %s %s" % (os.path.join(REPO, "Cargo.lock"), os.path.join(d, "Cargo.lock")))
+    rc, out = sh("cargo build --release --offline 2>&1", cwd=d, timeout=1500, env={"CARGO_TARGET_DIR": tdir, "RUSTFLAGS": "--cfg %s -Awarnings" % HOOK_CFG})
+    if rc != 0:
+        return None, "compile", out[-3000:]
+    return os.path.join(tdir, "release", "c14gen"), "", ""
+
+
+def setup():
+    brc, bout, bdir = harness_build(["c14"])
+    if brc == 0:
+        build_fresh_generated(os.path.join(bdir, "c14"))
+
+
 def run_pipes(cmds, timeout=3000):
     outs = run_pipeline(cmds, timeout=timeout)
+    del STAGES[:]
     mism, stats, which, diffs = [], {}, [], []
     for (rc, out), c in zip(outs, cmds):
         m, s, other = parse_runner_output(out)
@@ -93,6 +137,7 @@ def run_pipes(cmds, timeout=3000):
         mism += m
         which += [l.split("\t", 1)[1] for l in other if l.startswith("WHICH\t")]
         diffs += [l.split("\t", 1)[1] for l in other if l.startswith("DIFF\t")]
+        STAGES.extend(l.split("\t", 1)[1] for l in other if l.startswith("STAGES\t"))
         for k, v in s.items():
             stats[k] = stats.get(k, 0) + v if isinstance(v, int) else v
     return mism, stats, which, diffs
@@ -124,19 +169,30 @@ def run(tier, seed, replay=None):
         res.violation("OCaml runner does not build", {"theorem_or_correspondence": "C14 extraction", "log": oout[-3000:]}, no_failing_input=True)
         return res.finish()
 
+    # the third leg: a parser freshly generated by the in-tree generator, compiled
+    gen_exe, gstage, glog = build_fresh_generated(hbin)
+    gen_pipe = ("| %s " % gen_exe) if gen_exe else ""
+
     if replay:
         rj = json.load(open(replay))
-        rc, out = sh("%s diff %s 0 0 one %s %s | %s 100000" % (hbin, REPO, rj.get("rule", "grammar_rules"), rj.get("input", "-"), runner), timeout=300)
+        rc, out = sh("%s diff %s 0 0 one %s %s %s| %s 100000" % (hbin, REPO, rj.get("rule", "grammar_rules"), rj.get("input", "-"), gen_pipe, runner), timeout=300)
         m, s, other = parse_runner_output(out)
         log("replay: " + "\n".join(l[:600] for l in out.split("\n") if not l.startswith("G\t"))[-2000:])
-        if [x for x in m if x["kind"] == "spec"]:
-            res.violation("replayed text is still parsed differently by the checked-in parser and the VM", {"case": rj.get("case", "")})
+        sp = [x for x in m if x["kind"] == "spec"]
+        if sp:
+            res.violation("replayed text is still parsed differently by the checked-in parser and %s" % " / ".join(sorted(set(against_name(x["case"]) for x in sp))),
+                          {"case": rj.get("case", ""), "rule": rj.get("rule", "grammar_rules"), "input": rj.get("input", "-"), "impl": sp[0]["impl"], "other": sp[0]["expected"]})
         return res.finish()
+    if not gen_exe:
+        res.violation("a parser freshly generated from meta/src/grammar.pest by the in-tree generator %s" % (
+                          "cannot be produced (pest_generator::derive_parser fails)" if gstage == "generate" else "does not compile"),
+                      {"theorem_or_correspondence": "C14 fresh parser (%s)" % gstage, "log": glog}, no_failing_input=True)
 
     # (1) regenerate, byte comparison
     rc, out = sh("%s regen %s" % (hbin, REPO), timeout=300)
     regen = [l for l in out.split("\n") if l.startswith("REGEN\t")]
     regen_ok = bool(regen) and regen[0].split("\t")[1] == "identical"
+    regen_fns = [l.split("\t", 1)[1].strip() for l in out.split("\n") if l.startswith("REGENFN\t")]
     spec_found = False
     # (2)-(4) structural reading + differential runs
     count = 150 if tier == "quick" else 4000
@@ -157,34 +213,59 @@ def run(tier, seed, replay=None):
         repo = REPO.rstrip("/")
         write_if_changed(os.path.join(d, "Cargo.toml"),
                          '[package]\nname = "c14fresh"\nversion = "0.0.0"\nedition = "2021"\npublish = false\n\n[workspace]\n\n[dependencies]\n'
-                         'pest = { path = "%s/pest" }\npest_derive = { path = "%s/derive" }\npvharness = { path = "%s" }\n\n[profile.release]\nopt-level = 1\n' % (repo, repo, hdir))
+                         'pest = { path = "%s/pest" }\npest_derive = { path = "%s/derive" }\n\n[profile.release]\nopt-level = 1\n' % (repo, repo))
         sh("cp %s %s" % (os.path.join(REPO, "Cargo.lock"), os.path.join(d, "Cargo.lock")))
         frc, fout = sh("cargo build --release --offline 2>&1", cwd=d, timeout=1500, env={"CARGO_TARGET_DIR": tdir, "RUSTFLAGS": "--cfg %s -Awarnings" % HOOK_CFG})
         if frc == 0:
             fresh = os.path.join(tdir, "release", "c14fresh")
         else:
             res.violation("a fresh #[derive(Parser)] of meta/src/grammar.pest does not compile", {"theorem_or_correspondence": "C14 fresh parser (build)", "log": fout[-3000:]}, no_failing_input=True)
+    legs = gen_pipe + (("| %s " % fresh) if fresh and gen_exe else "")   # column order: generated source first, #[derive] second
     for i, sd in enumerate(seeds):
-        cmds.append("%s diff %s %d %d %s %s| %s %d" % (hbin, REPO, count, sd, "" if i == 0 else "nofixed", ("| %s " % fresh) if fresh else "", runner, maxmodel))
+        cmds.append("%s diff %s %d %d %s %s| %s %d" % (hbin, REPO, count, sd, "" if i == 0 else "nofixed", legs, runner, maxmodel))
     mism, stats, which, diffs = run_pipes(cmds)
 
-    # ---- targeted failing-input search: a structural / byte-level / Coq-level break without a behavioural witness so far ----
-    broken = (not regen_ok) or (not thm["ok"]) or any(m["kind"] == "model" and " at=" in m["case"] for m in mism)
+    # ---- targeted failing-input search: a structural / byte-level / Coq-level break without a behavioural witness so far.  The rules to
+    # search around: the functions in which the regenerated grammar.rs differs from the checked-in one (token level), and the functions in
+    # which the checked-in / the fresh parser differ from the generator model (DIFF lines of the structural stage).  The oracle is the real
+    # code only (checked-in parser vs pest_vm vs the compiled fresh parser); the texts are described in `c14 target`. ----
+    broken = (not regen_ok) or (not thm["ok"]) or any(m["kind"] in ("model", "read") for m in mism)
+    search = None
     if broken and not [m for m in mism if m["kind"] == "spec"]:
         names = []
+        for f in regen_fns:
+            parts = f.split("::")
+            if len(parts) >= 2 and parts[-2] == "rules":
+                names.append(parts[-1])
+            elif parts[-1] == "skip":
+                names += ["WHITESPACE", "COMMENT"]
         for d in diffs:
             if d.startswith("fn "):
                 names.append(d[3:].strip())
             elif "skip" in d:
                 names += ["WHITESPACE", "COMMENT"]
         names = [n for i, n in enumerate(names) if n not in names[:i] and re.fullmatch(r"[A-Za-z0-9_]+", n)][:8]
+        light = False
+        if not names:
+            # nothing pinpointed (a reader / proof failure of another kind): every rule, without the exhaustive stage
+            names = [l for l in lines.get("O", ["", ""])[1].split(";")]
+            names = [re.match(r"\((\S+) ", n).group(1) for n in names if re.match(r"\((\S+) ", n)]
+            light = True
         if names:
+            t0 = time.time()
             tl = 4 if tier == "quick" else 5
-            m2, s2, _, _ = run_pipes(["%s target %s %s %d %s| %s %d" % (hbin, REPO, ",".join(names), tl, ("| %s " % fresh) if fresh else "", runner, maxmodel)])
-            log("C14: targeted search on the differing rules %s: %d texts (all strings up to length %d over the rules' literal alphabet, alone and in %s), %d disagreements" % (
-                ", ".join(names), s2.get("cases", 0), tl, "minimal grammar contexts", s2.get("spec_differences", 0)))
+            groups = [names[i::NPROC] for i in range(min(NPROC, len(names)))]
+            m2, s2, _, _ = run_pipes(["%s target %s %s %d %s %d %s| %s -1" % (hbin, REPO, ",".join(g), tl, "light" if light else "full", seed, legs, runner) for g in groups if g])
+            stages = list(STAGES)
+            search = {"rules": names, "pinpointed": not light, "texts": s2.get("cases", 0), "compared_with_fresh_parser": s2.get("fresh_compared", 0),
+                      "disagreements": s2.get("spec_differences", 0), "stages": "; ".join(stages)[:3000], "wall_s": round(time.time() - t0, 1)}
+            log("C14: targeted search on the %s %s: %d (rule, text) cases on the checked-in parser, pest_vm and %s (spellings of each rule at every repetition count and "
+                "alternative, embedded in every calling rule, trivia at every position%s), %d disagreements (%.0fs)" % (
+                    "differing rules" if not light else "rules (nothing pinpointed)", ", ".join(names[:12]) + (" .." if len(names) > 12 else ""), s2.get("cases", 0),
+                    "the fresh parser" if gen_exe else "NO fresh parser", "" if light else ", all strings up to length %d over the rules' literal alphabet" % tl,
+                    s2.get("spec_differences", 0), time.time() - t0))
             mism += [m for m in m2 if m["kind"] in ("spec", "harness")]
-            for k in ("cases", "evaluations", "distinct_nontrivial", "spec_differences", "modelled", "fresh_compared"):
+            for k in ("cases", "evaluations", "distinct_nontrivial", "spec_differences", "fresh_compared"):
                 stats[k] = stats.get(k, 0) + s2.get(k, 0)
 
     spec_m = [m for m in mism if m["kind"] == "spec"]
@@ -204,9 +285,9 @@ def run(tier, seed, replay=None):
             res.violation("%s" % worst["impl"][:400], {"theorem_or_correspondence": "C14: the checked-in parser on its own grammar file", "case": worst["case"], "impl": worst["impl"]})
         else:
             res.violation("the checked-in grammar parser and %s disagree: rule %s on text %r: checked-in `%s` vs `%s` (%d disagreeing cases in this run)" % (
-                              "pest_vm on parse_and_optimize(grammar.pest)" if against == "vm" else "a freshly derived parser", rule, shown[:200], worst["impl"][:200],
+                              against_name(worst["case"]), rule, shown[:200], worst["impl"][:200],
                               worst["expected"][:200], stats.get("spec_differences", len(spec_m))),
-                          {"theorem_or_correspondence": "C14 oracle: pest_meta::parser::parse vs pest_vm / fresh derive (real code)", "case": worst["case"],
+                          {"theorem_or_correspondence": "C14 oracle: pest_meta::parser::parse vs pest_vm vs freshly generated parser (real code)", "case": worst["case"],
                            "rule": rule, "input": inp, "impl": worst["impl"], "other": worst["expected"]})
     if not regen_ok:
         res.violation("meta/src/grammar.rs is not what the generator emits for meta/src/grammar.pest: %s" % (regen[0].split("\t", 2)[2][:600] if regen else out[-300:]),
@@ -247,7 +328,7 @@ def run(tier, seed, replay=None):
     if not thm["ok"]:
         res.violation("proof obligation no longer checks (meta-grammar outside H, or the checked-in closures are not the generator model's): " + "; ".join(thm["problems"]),
                       {"theorem_or_correspondence": "coq/props/C14.v", "log": thm["log"][-3000:]}, no_failing_input=not spec_found)
-    log("C14: regeneration %s; %d differential cases (%d through the model, %d against a compiled fresh derive), %d .pest files; meta-grammar: %s rules, in H: %s; optimizer cross-check: %s" % (
+    log("C14: regeneration %s; %d differential cases (%d through the model, %d comparisons with a compiled freshly generated parser), %d .pest files; meta-grammar: %s rules, in H: %s; optimizer cross-check: %s" % (
         "byte-identical" if regen_ok else "DIFFERENT", stats.get("cases", 0), stats.get("modelled", 0), stats.get("fresh_compared", 0), stats.get("pest_files", 0) // max(1, len(seeds)),
         stats.get("rules", 0) // max(1, len(seeds)), "yes" if stats.get("in_H", 0) == len(seeds) else "NO", "proved" if orc2 == 0 else "not built"))
     res.coverage.update({
@@ -261,9 +342,22 @@ def run(tier, seed, replay=None):
         "runner_cases": stats.get("cases", 0),
         "mismatches": len(mism),
         "regeneration": "identical" if regen_ok else "different",
+        "legs": "every text: checked-in parser (pest_meta::parser::parse), pest_vm on parse_and_optimize(grammar.pest)" + (
+                    ", the in-tree derive_parser output for grammar.pest compiled as source" if gen_exe else " (NO freshly generated parser: it could not be built)") + (
+                    ", a compiled #[derive(Parser)] of grammar.pest" if fresh and gen_exe else "") + "; texts of at most %d bytes also the extracted model" % maxmodel,
+        "fresh_parser_comparisons": stats.get("fresh_compared", 0),
+        "targeted_search": search if search else "not run (no structural / proof / correspondence break, or a failing text was already found)",
     })
     res.assumptions = ["model runs are limited to texts of at most %d bytes (unary positions in the extracted model)" % maxmodel]
     return res.finish()
+
+
+def against_name(case):
+    m = re.search(r"against=(\S+)", case)
+    a = m.group(1) if m else "vm"
+    return {"vm": "pest_vm on parse_and_optimize(grammar.pest)",
+            "fresh": "a parser freshly generated from grammar.pest by the in-tree generator (derive_parser output compiled as source)",
+            "fresh-derive": "a freshly compiled #[derive(Parser)] of grammar.pest"}.get(a, a)
 
 
 def field_what(case):
